@@ -131,3 +131,24 @@ package zcnsc
 //@   ensures[verified] result == nil ==> (forall i in 0..len(signatures) :: sig_valid($authKey[signatures[i].ID], signatures[i].Signature, mint_msg(mp)))
 //@   loop 1 invariant forall k in 0..$idx+1 :: sig_valid($authKey[signatures[k].ID], signatures[k].Signature, mint_msg(mp))
 //@   loop 1 invariant toSign == mint_msg(mp) && len(signatures) > 0
+
+// ---------------------------------------------------------------- governance: update-global-config (C48)
+// The bridge's global node is written back only for the owner recorded in it BEFORE the changes are
+// applied, only after every change was applied without error, and only in a state that passed
+// GlobalNode.Validate() after the last change. ($cfgValid: chain/state contracts.)
+//@ func (*GlobalNode).UpdateConfig
+//@   trusted
+//@   modifies gn.$all, $cfgValid
+//@   ensures !$cfgValid[obj(gn)]
+//@   ensures forall o int :: o != obj(gn) ==> $cfgValid[o] == old($cfgValid[o])
+//@ func (*GlobalNode).Validate
+//@   trusted
+//@   modifies $cfgValid
+//@   ensures $cfgValid[obj(gn)] == (result == nil)
+//@   ensures forall o int :: o != obj(gn) ==> $cfgValid[o] == old($cfgValid[o])
+//@ func (*ZCNSmartContract).UpdateGlobalConfig
+//@   prop C48
+//@   requires t != nil && ctx != nil
+//@   at-call UpdateConfig assert[owner-only] gn.OwnerId == t.ClientID
+//@   at-call InsertTrieNode assert[validated-when-saved] obj($arg2) == obj(gn) && $cfgValid[obj(gn)]
+//@   ensures[rejected-change-saves-nothing] result1 != nil ==> $nsaved == old($nsaved)
